@@ -457,16 +457,36 @@ func passEdges(fn *ssa.Function, match func(fact string) bool, depth int) map[*s
 				truthy = !truthy
 			}
 			var rets []*ssa.BasicBlock
+			nClass := 0
 			for _, hb := range h.Blocks {
 				r, isR := hb.Instrs[len(hb.Instrs)-1].(*ssa.Return)
 				if !isR || idx >= len(r.Results) {
 					continue
 				}
 				rv := returnedValue(r, idx)
+				nClass++
 				switch kind {
 				case "bool":
 					if k, isK := rv.(*ssa.Const); isK && k.Value != nil {
 						if (desc(k) == "true") != truthy {
+							nClass--
+							continue
+						}
+					} else {
+						// the helper returns the tested value itself (return m.set[k], return a == b): on this
+						// class of return the corresponding fact about that value holds
+						tf, ff := condFacts(rv)
+						facts := tf
+						if !truthy {
+							facts = ff
+						}
+						holds := false
+						for _, f := range facts {
+							if hm(f) {
+								holds = true
+							}
+						}
+						if holds {
 							continue
 						}
 					}
@@ -474,15 +494,17 @@ func passEdges(fn *ssa.Function, match func(fact string) bool, depth int) map[*s
 					// truthy edge of `x == nil`: returns that may be nil
 					nonNil := definitelyNonNilErr(rv, hb, 0)
 					if truthy && nonNil {
+						nClass--
 						continue
 					}
 					if !truthy && isNilConst(rv) {
+						nClass--
 						continue
 					}
 				}
 				rets = append(rets, hb)
 			}
-			if len(rets) == 0 {
+			if nClass == 0 {
 				continue
 			}
 			hcut := passEdges(h, hm, depth-1)
